@@ -1,7 +1,7 @@
 // C14 harnesses: per-case CPU-time watchdog.  Before each case the process arms ITIMER_PROF (CPU time of the process, user + system:
 // independent of the load of the machine); a case that is still running when the budget is used up makes the process print HANG
 // and leave with status 42.  The check then re-runs that one case alone with a larger budget before it reports "does not return".
-// Budget in seconds: environment variable C14_CPU_BUDGET (default 60).
+// Budget in seconds: environment variable C14_CPU_BUDGET (set by the check: 20 in a stream, 100 alone; default 60).
 #ifndef C14_WATCHDOG_H
 #define C14_WATCHDOG_H
 #include <csignal>
